@@ -612,3 +612,121 @@ func c18EveryBucketCount(c *Ctx, n int) {
 		}
 	})
 }
+
+// ---------------------------------------------------------------- receiver growth x stream size (C05, C06)
+
+// A reused receiver keeps three parallel tables whose capacities were rounded to different allocation classes by
+// the appends (or the earlier decode) that grew them. Which capacities meet which chunk count of the stream being
+// decoded is a two-dimensional space that random sampling covers thinly (seeded changes C06-r3m1, C10-r2m2,
+// C05-r3m2 live there). This unit enumerates it for small sizes: receiver grown to g chunks (g = the case index,
+// 1..400 quick / 1..1500 thorough) by one of three growth histories, then streams with every chunk count
+// s = g-2 .. g + g/3 + 12 are decoded into (a fresh copy of) it.
+func growthCases(tier string) int {
+	if tier == "thorough" {
+		return 1500
+	}
+	return 400
+}
+
+func grownReceiver(g int, history int) *roaring.Bitmap {
+	b := roaring.New()
+	switch history {
+	case 0: // appended one chunk at a time
+		for k := 0; k < g; k++ {
+			b.Add(uint32(k)<<16 | 5)
+		}
+	case 1: // sized exactly by a decode of g/2 chunks, then appended
+		src := roaring.New()
+		for k := 0; k < g/2; k++ {
+			src.Add(uint32(k)<<16 | 5)
+		}
+		if buf, err := src.ToBytes(); err == nil {
+			b.ReadFrom(bytes.NewReader(buf))
+		}
+		for k := g / 2; k < g; k++ {
+			b.Add(uint32(k)<<16 | 5)
+		}
+	default: // grown by inserting chunks in front (insertNewKeyValueAt) and cleared
+		for k := g - 1; k >= 0; k-- {
+			b.Add(uint32(k)<<16 | 5)
+		}
+		b.Clear()
+	}
+	return b
+}
+
+func receiverGrowthCase(c *Ctx, index int, foreign bool) {
+	g := index + 1
+	r := NewRng(mix(uint64(g), seedFromEnv()+5))
+	c.Distinct(uint64(g))
+	c.SetAdd("receiver_growth_sizes_enumerated", uint64(g))
+	for s := g - 2; s <= g+g/3+12; s++ {
+		if s < 0 {
+			continue
+		}
+		m := NewISet()
+		src := roaring.New()
+		base := uint64(r.Intn(4))
+		for k := uint64(0); k < uint64(s); k++ {
+			v := (base+k)<<16 | r.Range(0, 65535)
+			m.Add(v)
+			src.Add(uint32(v))
+		}
+		var wire []byte
+		if foreign {
+			wire = specEncode(r, m, encChoice{ForceRunCookie: r.Chance(0.5), RunP: []float64{0, 0.5}[r.Intn(2)]})
+		} else {
+			var err error
+			if wire, err = src.ToBytes(); err != nil {
+				c.Fail("ToBytes/error", "%v", err)
+				return
+			}
+		}
+		history := r.Intn(3)
+		entry := []string{"ReadFrom", "FromBuffer", "UnmarshalBinary", "FromUnsafeBytes"}[r.Intn(4)]
+		dst := grownReceiver(g, history)
+		c.hist = c.hist[:0]
+		c.Step("receiver grown to %d chunks (history %d: 0 appended, 1 decoded-then-appended, 2 front-inserted-then-cleared); %s of a %d-chunk stream (foreign encoder=%v)", g, history, entry, s, foreign)
+		var n int64
+		var err error
+		if c.Guard(entry+"/reused-receiver", func() {
+			switch entry {
+			case "ReadFrom":
+				n, err = dst.ReadFrom(bytes.NewReader(wire))
+			case "FromBuffer":
+				n, err = dst.FromBuffer(wire)
+			case "FromUnsafeBytes":
+				n, err = dst.FromUnsafeBytes(wire)
+			default:
+				err = dst.UnmarshalBinary(wire)
+				n = int64(len(wire))
+			}
+		}) {
+			return
+		}
+		c.Eval(1)
+		if err != nil || n != int64(len(wire)) {
+			c.Fail(entry+"/reused-receiver/error-or-byte-count", "%s into a receiver grown to %d chunks: (%d,%v) for a conformant %d-chunk stream of %d bytes", entry, g, n, err, s, len(wire))
+			return
+		}
+		if d := checkEq(dst, m); d != "" {
+			c.Fail(entry+"/reused-receiver/content", "%s into a receiver grown to %d chunks, %d-chunk stream: %s", entry, g, s, d)
+			return
+		}
+		// the decoded bitmap must keep working: one append and one removal
+		x := uint64(s+int(base)+1)<<16 | 9
+		if x <= max32 {
+			dst.Add(uint32(x))
+			m.Add(x)
+		}
+		if mn, ok := m.Min(); ok {
+			dst.Remove(uint32(mn))
+			m.Remove(mn)
+		}
+		if d := checkEq(dst, m); d != "" {
+			c.Fail(entry+"/reused-receiver/then-mutated", "%s into a receiver grown to %d chunks, %d-chunk stream, then Add/Remove: %s", entry, g, s, d)
+			return
+		}
+		_ = wire[len(wire)-1]
+	}
+}
